@@ -339,7 +339,7 @@ static OneReq gen_request(int mount, bool keep, int index, bool force_http11) {
     // headers
     std::set<std::string> used;
     std::vector<std::pair<std::string, std::string>> wire_headers;    // (name as sent, wire value)
-    int nh = *vr::range<int>(0, 6);
+    int nh = *vr::range<int>(0, 6); bool have_long = false;
     for (int i = 0; i < nh; i++) {
         std::string name = gen_token(12, TOK);
         if (name[0] == '-') name[0] = 'X';
@@ -348,6 +348,11 @@ static OneReq gen_request(int mount, bool keep, int index, bool force_http11) {
             cg == "HTTP_HOST" || cg == "HTTP_TRANSFER_ENCODING" || cg == "HTTP_EXPECT" || used.count(cg)) continue;
         used.insert(cg);
         std::string wire, val = gen_header_value(wire);
+        if (!have_long && *vr::range<int>(0, 6) == 0) {       // occasionally one long value, so that header blocks of several KiB (below the 16 KiB cap) occur
+            have_long = true;
+            int n = *vr::range<int>(300, 5000); std::string longv; for (int j = 0; j < n; j++) longv += char('a' + (j * 7 + n) % 26);
+            val = val.empty() ? longv : val + " " + longv; wire = wire.empty() ? longv : wire + " " + longv;
+        }
         x.http_env.push_back({cg, val});
         wire_headers.push_back({name, wire});
     }
